@@ -49,6 +49,7 @@ static void h_run_case(hcase_t* c) {
   }
   rt_reg((void*)&bar.counter, sizeof bar.counter, 300, sizeof bar.counter);
   rt_reg(nodes, sizeof nodes, 100, 8);
+  rt_reg_rest(&bar, sizeof bar, 3900);
   rt_name(nodes, sizeof nodes, 1, sizeof nodes[0]);
   t1_run(n, prog, c->sched, c->nsched, dmax);
   rt_print_trace();
